@@ -3851,7 +3851,7 @@ def c02_settling_echo_covers_all(env):
     o.functions = [fn.name]
     o.bounds = ["one call; the id list grows by at most 3 pushes (loop unrolled 3 times), at most 3 chunk boundaries; which ids ask for an echo is arbitrary"]
     o.assumes = ["consecutive_chunk_indices returns strictly increasing interior indices (1..len-1) -- its closure is a two-line window test; Vec/slice indexing contracts of std"]
-    ex = env.executor(max_visits=_mv(4, 5))
+    ex = env.executor(max_visits=_mv(4, 4))
     ex.max_paths = 20000
     n64 = lambda v: z3.BitVecVal(v, 64)  # noqa: E731
 
